@@ -39,7 +39,7 @@ type solver struct {
 	nameSeq           int64
 	scope             []string // assertions made inside the innermost open (push 1) of a check
 	depth             int      // number of open (push 1) scopes
-	stale             bool // the session timed out or printed an error: restart it before the next use
+	stale             bool     // the session timed out or printed an error: restart it before the next use
 	hungJustRestarted bool     // the session was just restarted by the watchdog path (no second restart needed)
 	hung              bool     // the watchdog killed the process because it ignored its own time limit
 }
